@@ -37,7 +37,7 @@ Lemma write_one_ok ab st c :
      w_out := w_out st ++ hdr_if (has_header f && negb ab && negb (w_hw st)) ++ serialise f c;
      w_err := 0 |}.
 Proof.
-  intros He Hc. unfold write_one. rewrite He. cbn [Z.eqb negb].
+  intros He Hc. unfold write_one, m_emits_header. rewrite He. cbn [Z.eqb negb].
   destruct st as [hw out e]. cbn [w_hw w_out w_err] in *. subst e.
   destruct c as [|r c].
   - rewrite serialise_nil.
